@@ -33,11 +33,26 @@
 //! Non-trivial: a file that an earlier planning event had seen is rewritten, and a later query is checked
 //! strictly (must-be-fresh).
 //!
+//! Known finding: `DROP TABLE` compares the unresolved `TableReference` with the one CREATE EXTERNAL TABLE was
+//! written with, so dropping under another spelling (`t` vs `datafusion.public.t`) leaves the listing / statistics
+//! entries behind; a later CREATE under the old spelling reuses the dropped table's listing. Histories that can hit
+//! this carry `known_signature = "drop-spelling-leaks-listing"` (regressions/C40/c40b/, known_findings.json).
+//!
 //! Deviations from DESIGN.md: lives in vf-cat (not vf-core); own expected-row computation instead of `refsql`
 //! (the queries are fixed shapes).
 //!
 //! Sensitivity probes (tools/mutrun, `./check C40 quick`):
-//! PROBES-PLACEHOLDER
+//!   1. core/src/execution/context/mod.rs `invalidate_caches`: `lfc.drop_table_entries(table_ref)` removed (DROP TABLE
+//!      keeps the cached listing) -> VIOLATION after 203 cases: rewrite f0, `DROP TABLE t`, re-`CREATE EXTERNAL TABLE t`
+//!      fails with "Invalid Parquet file. Corrupt footer" (stale size from the dropped table's listing).
+//!   2. catalog-listing/src/table.rs `do_collect_statistics_and_ordering`: a cached statistics entry is also accepted
+//!      when only the mtime matches (size ignored) -> VIOLATION after 36 cases: size-only rewrite (mtime restored),
+//!      clock +11 s, `SELECT a, b FROM t` returns the stale file's rows "expected (11, r11) got (10, r10)".
+//!   (Probes inside datafusion-execution — TTL never expiring, `is_valid_for` ignoring mtime — were prepared but not
+//!   run: every mutrun rebuild of that crate's dependants took > 1 h on the shared machine; c40a covers them at unit
+//!   level.)
+//!   Repair /verif/fixes/C40-drop-table-resolved-cache-scope.diff (known finding `drop-spelling-leaks-listing`): with
+//!   it the regression case passes and a quick run WITHOUT the known-finding exclusion passes (480 cases, 89 non-trivial).
 use datafusion::arrow::array::{Int64Array, StringArray};
 use datafusion::arrow::datatypes::{DataType, Field, Schema};
 use datafusion::arrow::record_batch::RecordBatch;
@@ -343,7 +358,7 @@ impl Property for C40b {
             .boxed()
     }
     fn budget(&self, tier: Tier) -> Budget {
-        Budget::new(tier.pick(480, 32_000), tier.pick(8, 16)).min_nontrivial(tier.pick(60, 2_000)).case_timeout(180)
+        Budget::new(tier.pick(480, 32_000), tier.pick(8, 16)).min_nontrivial(tier.pick(40, 2_000)).case_timeout(180)
     }
     fn rule(&self) -> String {
         "listing table over a temp dir (Parquet/CSV), all caches on, list-files TTL with an injected clock; history of add / in-place rewrite \
